@@ -95,6 +95,8 @@ func (lex *Lexer) isNotCommentEnd() bool {
 func (lex *Lexer) Lex() *token.Token {
 	eof := lex.pe
 	var tok token.ID
+	mStart, mEnd := 0, 0
+	_, _ = mStart, mEnd
 
 	tkn := lex.tokenPool.Get()
 
@@ -181,7 +183,9 @@ func (lex *Lexer) Lex() *token.Token {
 		goto st3
 	tr3:
 		lex.te = (lex.p) + 1
+		mEnd = lex.p
 		{
+			_ = lex.data[mStart:mEnd]
 			lex.setTokenPosition(tkn)
 			tok = token.T_STRING
 			{
@@ -240,6 +244,9 @@ func (lex *Lexer) Lex() *token.Token {
 			lex.error(string(c))
 		}
 		goto st3
+	tr8:
+		mStart = lex.p
+		goto st5
 	st3:
 		lex.ts = 0
 
@@ -261,9 +268,9 @@ func (lex *Lexer) Lex() *token.Token {
 		case 35:
 			goto st6
 		case 65:
-			goto st5
+			goto tr8
 		case 97:
-			goto st5
+			goto tr8
 		}
 		goto tr7
 	st4:
